@@ -1915,7 +1915,9 @@ theorem step_inv {w : World} (e : Ev) (hI : Inv12 w)
     split
     · exact ⟨hI, Or.inl rfl⟩
     · split
-      · exact ⟨hI.env (EnvSame.of_conns rfl rfl rfl rfl) rfl rfl, Or.inl rfl⟩
+      · split
+        · exact ⟨hI.env (EnvSame.of_conns rfl rfl rfl rfl) rfl rfl, Or.inl rfl⟩
+        · exact ⟨hI.env (EnvSame.of_conns rfl rfl rfl rfl) rfl rfl, Or.inl rfl⟩
       · exact ⟨hI.env (EnvSame.of_conns rfl rfl rfl rfl) rfl rfl, Or.inl rfl⟩
   | app r =>
     simp only [step]
@@ -1927,18 +1929,30 @@ theorem step_inv {w : World} (e : Ev) (hI : Inv12 w)
     simp only [step]
     split
     · exact ⟨hI, Or.inl rfl⟩
-    · refine ⟨hI.env ⟨rfl, fun m => ?_, rfl, fun _ k hk => ?_⟩ rfl rfl, Or.inl rfl⟩
-      · unfold msgPkts allPkts
-        simp [List.flatMap_append, about]
-      · simp only [Option.some.injEq] at hk
-        subst hk; simp
+    · split
+      · -- (deaf dialer) the transport arrives after the Connect context was cancelled
+        have key : ∀ w0 : World, Inv12 w0 → w0.accepted = w.accepted →
+            Inv12 (progress w0) ∧ AccStep w (.dialOk idStart) (progress w0) := fun w0 h0 ha =>
+          ⟨(progress_inv h0).1, Or.inl ((progress_inv h0).2.accepted.trans ha)⟩
+        refine key _ (hI.env ⟨rfl, fun m => ?_, rfl, fun _ k hk => ?_⟩ rfl rfl) rfl
+        · unfold msgPkts allPkts
+          simp [List.flatMap_append, about]
+        · simp only [Option.some.injEq] at hk
+          subst hk; simp
+      · refine ⟨hI.env ⟨rfl, fun m => ?_, rfl, fun _ k hk => ?_⟩ rfl rfl, Or.inl rfl⟩
+        · unfold msgPkts allPkts
+          simp [List.flatMap_append, about]
+        · simp only [Option.some.injEq] at hk
+          subst hk; simp
   | dialFail =>
     simp only [step]
     split
     · exact ⟨hI, Or.inl rfl⟩
     · split
       · exact ⟨hI.env (EnvSame.of_conns rfl rfl rfl rfl) rfl rfl, Or.inl rfl⟩
-      · exact ⟨hI.env (EnvSame.of_conns rfl rfl rfl rfl) rfl rfl, Or.inl rfl⟩
+      · split
+        · exact ⟨hI.env (EnvSame.of_conns rfl rfl rfl rfl) rfl rfl, Or.inl rfl⟩
+        · exact ⟨hI.env (EnvSame.of_conns rfl rfl rfl rfl) rfl rfl, Or.inl rfl⟩
   | waitElapsed =>
     simp only [step]
     split
@@ -1951,7 +1965,9 @@ theorem step_inv {w : World} (e : Ev) (hI : Inv12 w)
     · split
       · exact ⟨hI.env (EnvSame.of_conns rfl rfl rfl rfl) rfl rfl, Or.inl rfl⟩
       · exact ⟨hI.env (EnvSame.of_conns rfl rfl rfl rfl) rfl rfl, Or.inl rfl⟩
-      · exact ⟨hI.env (EnvSame.of_conns rfl rfl rfl rfl) rfl rfl, Or.inl rfl⟩
+      · split
+        · exact ⟨hI.env (EnvSame.of_conns rfl rfl rfl rfl) rfl rfl, Or.inl rfl⟩
+        · exact ⟨hI.env (EnvSame.of_conns rfl rfl rfl rfl) rfl rfl, Or.inl rfl⟩
       · rename_i k _
         have ha : Inv12 { w with ctxCancelled := true, connReady := true } :=
           hI.env (EnvSame.of_conns rfl rfl rfl rfl) rfl rfl
